@@ -5,7 +5,11 @@ open PttVerif PttVerif.C20
 /-
 ops:
   layout
-  reset <nrec|nofile> <tail> <seed> <shm: MAX int32 values, comma separated> <disk: nrec int32 values | ->
+  reset <nrec|nofile> <tail> <seed> <shm: MAX int32 values, comma separated> <disk: nrec int32 values | -> [free=<slots>]
+        free=: slots that have no registered user id (candidates for a registration; not reachable by syncquery/load)
+  newuser <id> <startMoney> <slot> <hex of the registration record>
+        ptt.SetupNewUser; <slot> is the slot the id was observed to get (0: the registration was refused)
+  resetconc <G> <N> <seed>              concurrent stress (judged by the oracle only; the model answers `done`)
   set <uid> <money> | de <uid> <money> | get <uid>            (int32 decimals)
   syncquery <uid>                       ptt.GetUser -> passwdSyncQuery
   load <uid>                            the same; the caller keeps the returned record as its copy for <uid>
@@ -99,6 +103,7 @@ def showAns (a : Ans) : String :=
 structure DState where
   st : Option State := none
   stale : List (Int × List Nat) := []
+  free : List Int := []
 
 def lvlOf (s : State) (u : Int) : String :=
   match s.file with
@@ -128,6 +133,7 @@ def doQuery (d : DState) (u : Int) (keep : Bool) : DState × String :=
   match d.st with
   | none => (d, "bad-op")
   | some s =>
+      if d.free.contains u then (d, "no-name") else
       match passwdSyncQuery s u with
       | .error f => (d, s!"{f} money=- recd=- " ++ observe2 s u)
       | .ok (.error e) => (d, s!"{showErr e} money=- recd=- " ++ observe2 s u)
@@ -151,27 +157,69 @@ def doPerm (d : DState) (u m : Int) (perm : Nat) : DState × String :=
       let d' := putStale { d with st := some s' } u rec2
       (d', showAns a ++ " " ++ observe2 s' u)
 
+def isIdent (s : String) : Bool :=
+  let cs := s.toList
+  match cs with
+  | [] => false
+  | c :: rest => c.isAlpha && rest.all Char.isAlphanum && 2 ≤ cs.length && cs.length ≤ 12
+
+def parseFree (s : String) : Option (List Int) :=
+  if !s.startsWith "free=" then none else
+  match parseCsv (s.drop 5).toString with
+  | none => none
+  | some l =>
+      if l.all (fun u => 1 ≤ u ∧ u ≤ (Gen.Money.maxUsers : Int)) && l.eraseDups.length == l.length && !l.isEmpty
+      then some l else none
+
+def doNewUser (d : DState) (m u : Int) (rec : List Nat) : DState × String :=
+  match d.st with
+  | none => (d, "bad-op")
+  | some s =>
+      if u = 0 then (d, "rejected") else
+      let (s', a) := step s (.newuser u rec m)
+      let d' := { d with st := some s', free := d.free.filter (· != u) }
+      (d', (match a with | .ok (_, e) => showErr e | .error f => toString f) ++ " " ++ observe2 s' u)
+
+def stepC20Reset (st : DState) (nrec tail seed shm disk : String) : DState × String :=
+    match parseNat tail 6, parseNat seed 19, parseCsv shm, parseCsv disk with
+    | some tail, some seed, some shm, some disk =>
+        if shm.length ≠ Gen.Money.maxUsers then (st, "bad-op") else
+        if nrec = "nofile" then
+          if disk.length ≠ 0 ∨ tail ≠ 0 then (st, "bad-op") else
+          let s : State := { shm := shm, file := none }
+          ({ st := some s, stale := [], free := [] }, s!"ok len=- shmd={hex16 (fnv (s.shm.flatMap le32))} rest=-")
+        else match parseNat nrec 4 with
+          | none => (st, "bad-op")
+          | some n =>
+              if disk.length ≠ n ∨ n > 2 * Gen.Money.maxUsers ∨ tail ≥ Gen.Money.recSize then (st, "bad-op") else
+              let f := mkFile seed (Gen.Money.recSize * n + tail) disk
+              let s : State := { shm := shm, file := some f }
+              ({ st := some s, stale := [], free := [] }, s!"ok len={f.length} shmd={hex16 (fnv (s.shm.flatMap le32))} rest={hex16 (fnv f)}")
+    | _, _, _, _ => (st, "bad-op")
+
 def stepC20 (d : DState) (ws : List String) : DState × String :=
   let st := d
   match ws with
   | ["layout"] =>
       (st, s!"max={Gen.Money.maxUsers} sz={Gen.Money.recSize} off={Gen.Money.moneyOffset} fsz={Gen.Money.moneySize} lvl={Gen.Money.userLevelOffset} bools={if Gen.Money.boolOffsets.isEmpty then "-" else ",".intercalate (Gen.Money.boolOffsets.map toString)}")
-  | ["reset", nrec, tail, seed, shm, disk] =>
-      match parseNat tail 6, parseNat seed 19, parseCsv shm, parseCsv disk with
-      | some tail, some seed, some shm, some disk =>
-          if shm.length ≠ Gen.Money.maxUsers then (st, "bad-op") else
-          if nrec = "nofile" then
-            if disk.length ≠ 0 ∨ tail ≠ 0 then (st, "bad-op") else
-            let s : State := { shm := shm, file := none }
-            ({ st := some s, stale := [] }, s!"ok len=- shmd={hex16 (fnv (s.shm.flatMap le32))} rest=-")
-          else match parseNat nrec 4 with
-            | none => (st, "bad-op")
-            | some n =>
-                if disk.length ≠ n ∨ n > 2 * Gen.Money.maxUsers ∨ tail ≥ Gen.Money.recSize then (st, "bad-op") else
-                let f := mkFile seed (Gen.Money.recSize * n + tail) disk
-                let s : State := { shm := shm, file := some f }
-                ({ st := some s, stale := [] }, s!"ok len={f.length} shmd={hex16 (fnv (s.shm.flatMap le32))} rest={hex16 (fnv f)}")
-      | _, _, _, _ => (st, "bad-op")
+  | ["resetconc", g, n, seed] =>
+      match parseNat g 2, parseNat n 6, parseNat seed 19 with
+      | some g, some n, some _ =>
+          if 1 ≤ g ∧ 2 * g ≤ Gen.Money.maxUsers ∧ 1 ≤ n ∧ n ≤ 100000 then ({ st := none, stale := [], free := [] }, "done")
+          else (st, "bad-op")
+      | _, _, _ => (st, "bad-op")
+  | ["newuser", id, m, u, hex] =>
+      match parseI32 m, parseI32 u, parseHex hex with
+      | some m, some u, some rec =>
+          if isIdent id ∧ rec.length = Gen.Money.recSize ∧ 0 ≤ u then doNewUser st m u rec else (st, "bad-op")
+      | _, _, _ => (st, "bad-op")
+  | ["reset", nrec, tail, seed, shm, disk, free] =>
+      match parseFree free with
+      | none => (st, "bad-op")
+      | some fl =>
+          let r := stepC20Reset st nrec tail seed shm disk
+          if r.2 = "bad-op" then r else ({ r.1 with free := fl }, r.2)
+  | ["reset", nrec, tail, seed, shm, disk] => stepC20Reset st nrec tail seed shm disk
   | ["set", u, m] =>
       match parseI32 u, parseI32 m with
       | some u, some m => doOp st (.set u m) u
